@@ -16,7 +16,13 @@ pub enum Source {
     FamCompact(Family),
     /// every formula of a list as condition of statement a of a two-statement ADF
     Formulas(String, std::sync::Arc<Vec<Fm>>),
+    /// family member k presented unusually: ac facts in a permuted order that differs from the statement order, labels
+    /// that both sortings reorder, and a sorting (none / lexicographic / alphanumeric) - all a fixed function of k
+    FamPresented(Family),
 }
+
+/// labels that are not declared in sorted order under either sorting (b10 < b9 byte-wise, 9 < 10 naturally)
+const PRESENT_LABELS: [&str; 5] = ["b10", "b9", "a", "B", "c"];
 
 pub const PSI: usize = 5;
 
@@ -34,6 +40,10 @@ pub struct Case {
     pub tts: Vec<TT>,
     pub text: String,
     pub fms: Vec<Fm>,
+    /// 0 none, 1 varsort_lexi, 2 varsort_alphanum (applied after parsing)
+    pub sorting: usize,
+    /// labels in declaration order (index = position in `tts`)
+    pub labels: Vec<String>,
 }
 
 impl Source {
@@ -42,17 +52,18 @@ impl Source {
             Source::Fam(f) | Source::FamCompact(f) => f.name.clone(),
             Source::FamAllWriters(f) => format!("{} x all writer tuples", f.name),
             Source::Formulas(n, _) => n.clone(),
+            Source::FamPresented(f) => format!("{} presented with permuted ac facts, reordering labels and sortings", f.name),
         }
     }
     pub fn n(&self) -> usize {
         match self {
-            Source::Fam(f) | Source::FamAllWriters(f) | Source::FamCompact(f) => f.n,
+            Source::Fam(f) | Source::FamAllWriters(f) | Source::FamCompact(f) | Source::FamPresented(f) => f.n,
             Source::Formulas(..) => 2,
         }
     }
     pub fn size(&self) -> u64 {
         match self {
-            Source::Fam(f) | Source::FamCompact(f) => f.size(),
+            Source::Fam(f) | Source::FamCompact(f) | Source::FamPresented(f) => f.size(),
             Source::FamAllWriters(f) => f.size() * (WRITERS as u64).pow(f.n as u32),
             Source::Formulas(_, l) => l.len() as u64,
         }
@@ -63,20 +74,48 @@ impl Source {
                 let tts = f.get(k);
                 let fms = adf_fms(&tts, f.raw_index(k));
                 let text = adf_text_fm(&fms, &names(f.n));
-                Case { tts, text, fms }
+                Case { labels: names(tts.len()), tts, text, fms, sorting: 0 }
             }
             Source::FamCompact(f) => {
                 let tts = f.get(k);
                 let fms: Vec<Fm> = tts.iter().map(|tt| write_fm(*tt, f.n, 5)).collect();
                 let text = adf_text_fm(&fms, &names(f.n));
-                Case { tts, text, fms }
+                Case { labels: names(tts.len()), tts, text, fms, sorting: 0 }
             }
             Source::FamAllWriters(f) => {
                 let wn = (WRITERS as u64).pow(f.n as u32);
                 let tts = f.get(k / wn);
                 let fms = adf_fms(&tts, k % wn);
                 let text = adf_text_fm(&fms, &names(f.n));
-                Case { tts, text, fms }
+                Case { labels: names(tts.len()), tts, text, fms, sorting: 0 }
+            }
+            Source::FamPresented(f) => {
+                let n = f.n;
+                let tts = f.get(k);
+                let fms: Vec<Fm> = tts.iter().map(|tt| write_fm(*tt, n, 5)).collect();
+                let labels: Vec<String> = PRESENT_LABELS.iter().take(n).map(|s| s.to_string()).collect();
+                // ac facts: rotated by 1 + (k mod (n-1)) positions (never the statement order for n >= 2), and reversed for odd k/3
+                let rot = if n > 1 { 1 + (k as usize % (n - 1).max(1)) } else { 0 };
+                let mut order: Vec<usize> = (0..n).map(|i| (i + rot) % n).collect();
+                if (k / 3) % 2 == 1 {
+                    order.reverse();
+                }
+                let mut text = String::new();
+                // statements are declared interleaved with the conditions for every fourth member
+                if (k / 6) % 4 == 3 {
+                    for (j, i) in order.iter().enumerate() {
+                        text += &format!("ac({},{}).", labels[*i], fms[*i].text(&labels, ("", "")));
+                        text += &format!("s({}).", labels[j]);
+                    }
+                } else {
+                    for l in &labels {
+                        text += &format!("s({}).", l);
+                    }
+                    for i in &order {
+                        text += &format!("ac({},{}).", labels[*i], fms[*i].text(&labels, ("", "")));
+                    }
+                }
+                Case { tts, text, fms, sorting: (k % 3) as usize, labels }
             }
             Source::Formulas(_, l) => {
                 let phi = l[k as usize].clone();
@@ -84,13 +123,13 @@ impl Source {
                 let tts = vec![phi.tt(2), ps.tt(2)];
                 let fms = vec![phi, ps];
                 let text = adf_text_fm(&fms, &names(2));
-                Case { tts, text, fms }
+                Case { labels: names(tts.len()), tts, text, fms, sorting: 0 }
             }
         }
     }
     pub fn describe(&self, k: u64) -> Value {
         let c = self.get(k);
-        json!({"type": "adf", "source": self.name(), "index": k, "tts": c.tts, "text": c.text})
+        json!({"type": "adf", "source": self.name(), "index": k, "tts": c.tts, "text": c.text, "sorting": c.sorting, "labels": c.labels})
     }
 }
 
@@ -101,6 +140,8 @@ pub fn standard_sources(run: &Run, with_formulas: bool) -> Vec<Source> {
         Source::FamAllWriters(fam_a(2)),
         Source::Fam(fam_f(3, 2)),
         Source::Fam(fam_f(4, 1)),
+        Source::FamPresented(fam_a(2)),
+        Source::FamPresented(fam_f(3, 2)),
     ];
     if with_formulas {
         let l = if run.tier == Tier::Quick {
